@@ -24,6 +24,19 @@ fn change_op() -> impl Strategy<Value = HOp> {
         .prop_map(|(actor, file, edit)| HOp::Edit { actor, file, edit })
 }
 
+/// an agent (or a person) creates a new, still untracked file
+fn new_file_op() -> impl Strategy<Value = HOp> {
+    (name_idx(1), prop_oneof![4 => gen::ai_actor(), 1 => Just(Actor::Human)], gen::line_specs(4)).prop_map(|(name, actor, lines)| HOp::NewFile { name, actor, lines })
+}
+
+/// one round of an unrelated commit: a person edits one file and commits only that file,
+/// so everything else that is pending stays left out once more
+fn unrelated_commit() -> impl Strategy<Value = Vec<HOp>> {
+    (0u8..3, any::<u16>(), gen::line_specs(2)).prop_map(|(file, pos, lines)| {
+        vec![HOp::Edit { actor: Actor::Human, file, edit: Edit::Insert { pos, lines } }, HOp::CommitFiles { mask: 1 << file }]
+    })
+}
+
 fn partial() -> impl Strategy<Value = HOp> {
     prop_oneof![
         3 => (1u8..7).prop_map(|mask| HOp::CommitFiles { mask }),
@@ -34,9 +47,21 @@ fn partial() -> impl Strategy<Value = HOp> {
 pub fn strategy() -> impl Strategy<Value = Case> {
     (
         proptest::collection::vec(file_init(1, 14), 1..=3),
-        proptest::collection::vec(change_op(), 2..=6),
+        proptest::collection::vec(prop_oneof![6 => change_op(), 1 => new_file_op()], 2..=6),
         proptest::collection::vec(
-            (partial(), proptest::option::weighted(0.35, prop_oneof![4 => ai_edit_op(), 1 => edit_op(gen::edit_r1()), 2 => Just(HOp::Commit)])),
+            (
+                prop_oneof![8 => partial(), 1 => (8u8..64).prop_map(|mask| HOp::CommitFiles { mask })],
+                proptest::option::weighted(
+                    0.5,
+                    prop_oneof![
+                        4 => ai_edit_op().prop_map(|o| vec![o]),
+                        1 => edit_op(gen::edit_r1()).prop_map(|o| vec![o]),
+                        2 => Just(vec![HOp::Commit]),
+                        4 => proptest::collection::vec(unrelated_commit(), 1..=2).prop_map(|v| v.into_iter().flatten().collect()),
+                        1 => new_file_op().prop_map(|o| vec![o]),
+                    ],
+                ),
+            ),
             1..=4,
         ),
     )
@@ -45,7 +70,7 @@ pub fn strategy() -> impl Strategy<Value = Case> {
             for (p, extra) in partials {
                 ops.push(p);
                 if let Some(e) = extra {
-                    ops.push(e);
+                    ops.extend(e);
                 }
             }
             ops.push(HOp::Commit);
@@ -105,7 +130,7 @@ pub fn spec() -> Spec<Case> {
     Spec {
         id: "C04",
         level: "exploration",
-        rule: "a change set of 2-6 AI/human hunks (insert/replace/delete/intra-line) over 1-3 files of 2-14 lines, committed through 1-4 successive partial commits - by file (`git add <paths>`) and by hunk (index content composed from HEAD + a generated subset of the working-tree hunks, i.e. the state `git add -p` produces) - with optional agent/human edits and whole commits in between, then a final commit of the rest. Oracle: the C01 commit oracle on every commit (a line is recorded for a commit iff that commit adds it and the content-addressed model says an agent wrote it), and across the sequence no AI line is listed by the notes of two commits. non-trivial = >=1 executed partial commit in a history with AI checkpoints and >=3 commits; distinct by case hash".into(),
+        rule: "a change set of 2-6 AI/human hunks (insert/replace/delete/intra-line) over 1-3 files of 2-14 lines plus new, still untracked files created by agents or people, committed through 1-4 successive partial commits - by file (`git add <paths>`) and by hunk (index content composed from HEAD + a generated subset of the working-tree hunks, i.e. the state `git add -p` produces) - with optional agent/human edits, whole commits, and unrelated human-only commits of a single file (so that left-out work is carried across several commits) in between, then a final commit of the rest. Oracle: the C01 commit oracle on every commit (a line is recorded for a commit iff that commit adds it and the content-addressed model says an agent wrote it), and across the sequence no AI line is listed by the notes of two commits. non-trivial = >=1 executed partial commit in a history with AI checkpoints and >=3 commits; distinct by case hash".into(),
         cases_quick: 224,
         cases_thorough: 5000,
         shrink_iters: 80,
